@@ -25,6 +25,7 @@ EXPLANATION = (
     "under swapping the sides - a necessary condition of sign-equivariance for a < 0. "
     "Not decided: affine equivariance and finiteness of the individual estimators' arithmetic - numeric clauses. "
     "Since F35, R3 also forbids an unqualified squeeze in the estimators (a lane axis of length 1 survives)."
+    ' Since wave 6: the scale estimators behind estimate_scale equal their textbook definitions (R1 estimator:*), and no optional numeric parameter (axis) is used for its truth value in the estimators or the containers that call them (R3).'
 )
 S = "sigpyproc.core.stats"
 U = "sigpyproc.utils"
